@@ -147,12 +147,13 @@ Proof.
       destruct (N.leb (slots_total rl1) sf) eqn:En1.
       * inversion H; subst rl' acc'. clear H. cbn [a_dst a_cur a_num a_migs].
         fin.
-      * apply IH in H; cbn [a_dst a_cur a_num a_migs]; auto; try lia.
-        -- destruct H as (H1 & H2 & H3 & H4 & H5 & H6 & H7 & H8 & H9 & H10).
-           cbn [a_dst a_cur a_num a_migs] in H2, H8. msplit; auto; try lia.
-           intros s. specialize (H2 s). specialize (Hcn' s). rewrite cnt_nil in H2. lia.
-        -- intros s. rewrite cnt_nil. specialize (Hcn0 s). lia.
-        -- left. reflexivity.
+      * assert (Hc0 : forall s, (cnt s rl1 + cnt s [] <= 1)%nat).
+        { intros s. rewrite cnt_nil. specialize (Hcn0 s). lia. }
+        pose proof (IH idx part rl1 _ rl' acc' H Hwrl1 (Forall_nil _) Hc0 Hnum' ltac:(cbn [a_dst]; lia) ltac:(lia)
+                       (or_introl eq_refl) HG' Hok') as R.
+        destruct R as (H1 & H2 & H3 & H4 & H5 & H6 & H7 & H8 & H9 & H10).
+        cbn [a_dst a_cur a_num a_migs] in H2, H8. msplit; auto; try lia.
+        intros s. specialize (H2 s). specialize (Hcn' s). rewrite cnt_nil in H2. lia.
     + (* source at its final size before the destination is complete *)
       cbn [orb] in Efl. rewrite Efl in H.
       inversion H; subst rl' acc'. clear H. cbn [a_dst a_cur a_num a_migs].
@@ -164,15 +165,17 @@ Proof.
       fin.
   - (* keep collecting *)
     apply orb_false_iff in Efl. destruct Efl as [Eadv En1].
-    apply IH in H; cbn [a_dst a_cur a_num a_migs]; auto; try lia.
-    + destruct H as (H1 & H2 & H3 & H4 & H5 & H6 & H7 & H8 & H9 & H10).
-           cbn [a_dst a_cur a_num a_migs] in H2, H8. msplit; auto; try lia.
-      intros s. specialize (H2 s). specialize (Hcn s). unfold range in *. lia.
-    + intros s. apply Hcn0.
-    + right. split; lia.
-    + intros d. cbn [a_dst a_cur a_num a_migs]. specialize (HG d).
+    assert (HGk : Go (mkAcc (a_dst acc) cur1 num1 (a_migs acc))).
+    { intros d. cbn [a_dst a_cur a_num a_migs]. specialize (HG d).
       destruct (N.eqb d (smn + a_dst acc)) eqn:E1; destruct (N.ltb d smn) eqn:E3;
-        destruct (N.ltb d (smn + a_dst acc)) eqn:E4; lia.
+        destruct (N.ltb d (smn + a_dst acc)) eqn:E4; lia. }
+    assert (Hpk : opre idx part rl1 (mkAcc (a_dst acc) cur1 num1 (a_migs acc))).
+    { right. cbn [a_dst]. split; lia. }
+    pose proof (IH idx part rl1 _ rl' acc' H Hwrl1 Hwcur1 Hcn0 ltac:(cbn [a_dst a_num]; lia) Hdst ltac:(lia)
+                   Hpk HGk Hok) as R.
+    destruct R as (H1 & H2 & H3 & H4 & H5 & H6 & H7 & H8 & H9 & H10).
+    cbn [a_dst a_cur a_num a_migs] in H2, H8. msplit; auto; try lia.
+    intros s. specialize (H2 s). specialize (Hcn s). lia.
 Qed.
 
 End OutNum.
